@@ -632,6 +632,59 @@ impl BytecodeInterpreterAction {"""),
             writeln!(f, "    {}: {}", i, opcode)?;
         }
         Ok(())"""),
+ ("benign-heap-log-through-bufwriter", "src/bytecode/heap.rs",
+  """pub struct Heap{ max_size: usize, size: usize, log: Option<File>, memory: Vec<HeapObject> }
+
+impl Eq for Heap {}
+impl PartialEq for Heap {
+    fn eq(&self, other: &Self) -> bool {
+        self.memory.eq(&other.memory)
+    }
+}
+
+impl Heap {
+    pub fn set_size(&mut self, size: usize /* in MB */) {
+        self.max_size = size.saturating_mul(1024 * 1024) /* in B */
+    }
+    pub fn set_log(&mut self, path: PathBuf) {
+
+        let mut dir = path.clone();
+        dir.pop();
+        create_dir_all(dir).unwrap();
+
+        let mut file = File::create(path).unwrap();
+        write!(file, "timestamp,event,heap\\n").unwrap();
+
+        heap_log!(START -> Some(&mut file));
+        self.log = Some(file)
+""",
+  """pub struct Heap{ max_size: usize, size: usize, log: Option<std::io::BufWriter<File>>, memory: Vec<HeapObject> }
+
+impl Eq for Heap {}
+impl PartialEq for Heap {
+    fn eq(&self, other: &Self) -> bool {
+        self.memory.eq(&other.memory)
+    }
+}
+
+impl Heap {
+    pub fn set_size(&mut self, size: usize /* in MB */) {
+        self.max_size = size.saturating_mul(1024 * 1024) /* in B */
+    }
+    pub fn set_log(&mut self, path: PathBuf) {
+
+        let mut dir = path.clone();
+        dir.pop();
+        create_dir_all(dir).unwrap();
+
+        let mut file = File::create(path).unwrap();
+        write!(file, "timestamp,event,heap\\n").unwrap();
+
+        heap_log!(START -> Some(&mut file));
+        // records are small and many: collect them in a buffer (written out when it fills up and
+        // when the heap goes away, also while unwinding)
+        self.log = Some(std::io::BufWriter::new(file))
+"""),
  ("benign-yaml-written-with-document-end", "src/main.rs",
   """            ASTSerializer::YAML  => serde_yaml::to_string(&ast)?,""",
   """            ASTSerializer::YAML  => format!("{}\n...", serde_yaml::to_string(&ast)?.trim_end()),"""),
